@@ -312,6 +312,71 @@ theorem missing_checksum_rejected (s : Stream) (es : List (Bytes × Bytes))
   · exact h _ hm rfl
   · exact h _ hs rfl
 
+/-! ### repeated names in SHA256SUMS
+
+What the code does when a name is listed more than once: every line is checked on its own
+against the digest of that name (`hash check failed` on the first mismatch), and the final
+check only asks that each of the two names was listed at least once. So: ALL lines of a name
+must carry the right digest (neither the first nor the last "wins"); repeating valid lines, in
+any order, changes nothing; and a repeated line never stands in for a missing one. -/
+
+/-- **All lines must match.** If any listed entry — whatever else is listed for the same name,
+    before or after it — is not the exact (digest, name) pair of the archive's meta.json or
+    state.bin content, the archive is rejected. -/
+theorem repeated_sums_line_all_must_match (s : Stream) (es : List (Bytes × Bytes))
+    (hp : parseSums (cat nSums s.members) = some es)
+    (h : ∃ e ∈ es, e ≠ (H (cat nMeta s.members), nMeta) ∧ e ≠ (H (cat nState s.members), nState)) :
+    ∃ e, readStream H apply m0 s = .error e := by
+  apply rejected_of_not_accepted
+  intro m st hr
+  obtain ⟨_, _, _, _, ⟨es', hp', hall, _, _⟩, _⟩ := (readStream_ok_iff H apply m0 m s st).mp hr
+  rw [hp] at hp'; cases hp'
+  obtain ⟨e, he, h1, h2⟩ := h
+  rcases hall e he with h' | h'
+  · exact h1 h'
+  · exact h2 h'
+
+/-- **A repeated line is no substitute for a missing one.** However many times one name is
+    listed (with the right digest or not), if the other name is not listed the archive is
+    rejected — so the unlisted member can never escape its checksum. -/
+theorem repeated_sums_line_no_substitute (s : Stream) (es : List (Bytes × Bytes))
+    (hp : parseSums (cat nSums s.members) = some es)
+    (h : (∀ e ∈ es, e.2 = nMeta) ∨ (∀ e ∈ es, e.2 = nState)) :
+    ∃ e, readStream H apply m0 s = .error e := by
+  apply missing_checksum_rejected H apply m0 s es hp
+  have hne := nMeta_ne_nState
+  rcases h with h | h
+  · right; intro e he hn; exact hne ((h e he).symm.trans hn)
+  · left; intro e he hn; exact hne (hn.symm.trans (h e he))
+
+/-- **Repeating or permuting valid lines is harmless.** Two archives that differ only in their
+    SHA256SUMS text, both texts scanning to the same SET of entries (lines repeated any number
+    of times, in any order), get the same verdict and the same extraction. -/
+theorem repeated_sums_lines_same_verdict (s s' : Stream) (es es' : List (Bytes × Bytes))
+    (hend : s'.ending = s.ending) (hclean : Clean s'.members ↔ Clean s.members)
+    (hmetas : metas s'.members = metas s.members)
+    (hcm : cat nMeta s'.members = cat nMeta s.members)
+    (hcs : cat nState s'.members = cat nState s.members)
+    (hh1 : Has nMeta s'.members ↔ Has nMeta s.members)
+    (hh2 : Has nState s'.members ↔ Has nState s.members)
+    (hp : parseSums (cat nSums s.members) = some es)
+    (hp' : parseSums (cat nSums s'.members) = some es')
+    (hset : ∀ e, e ∈ es' ↔ e ∈ es) (m : M) (st : Bytes) :
+    readStream H apply m0 s' = .ok (m, st) ↔ readStream H apply m0 s = .ok (m, st) := by
+  rw [readStream_ok_iff, readStream_ok_iff, hend, hclean, hmetas, hcm, hcs, hh1, hh2]
+  have : SumsOK (H (cat nMeta s.members)) (H (cat nState s.members)) (cat nSums s'.members) ↔
+      SumsOK (H (cat nMeta s.members)) (H (cat nState s.members)) (cat nSums s.members) := by
+    unfold SumsOK
+    rw [hp, hp']
+    constructor
+    · rintro ⟨x, hx, ha, hb, hc⟩
+      cases hx
+      exact ⟨es, rfl, fun e he => ha e ((hset e).mpr he), (hset _).mp hb, (hset _).mp hc⟩
+    · rintro ⟨x, hx, ha, hb, hc⟩
+      cases hx
+      exact ⟨es', rfl, fun e he => ha e ((hset e).mp he), (hset _).mpr hb, (hset _).mpr hc⟩
+  rw [this]
+
 /-- **Unexpected member rejected**: a member with any other name, anywhere in the archive ⇒
     rejected, unconditionally (also when SHA256SUMS was recomputed to cover it). -/
 theorem unexpected_member_rejected (s : Stream) (x : Member) (hx : x ∈ s.members)
